@@ -189,7 +189,13 @@ func (r *Runner) specStep(k int, st SpecStep) {
 	case "RemoveServer":
 		ok = r.Do(Stim{Op: "remove", N: n, ID: p, TO: 60000})
 	case "ArmSnapshot":
+		if r.sc.SnapWindow {
+			// the specification's takeSnapshot is two steps: park the real one after publication
+			ok = r.Do(Stim{Op: "gate", N: n, W: "after:snap_close"})
+		}
 		ok = r.Do(Stim{Op: "snapnow", N: n})
+	case "AdoptSnapshot":
+		ok = r.Do(Stim{Op: "release", N: n, W: "after:snap_close"})
 	case "ISExchange":
 		// the whole transfer: as many request/response pairs as the sender's current file
 		// offset makes necessary, until the sender goes back to AppendEntries
